@@ -7,13 +7,12 @@ PROPS = {
         "witness_always": ["common_scaled", "texlang_parse_num", "stdlib_totality"],
         "witness_bound": {"common_scaled": "print->scan round trip: ALL 2^16 fractions x 9 integer parts x both signs (display_no_units / parse_no_units on the real code); boundary lattices for the arithmetic functions"},
         "level": "proof",
-        "verus": ["common_scaled", "texlang_parse_int", "texlang_parse_dimen", "stdlib_math"],
+        "verus": ["common_scaled", "texlang_parse_int", "texlang_parse_dimen", "texlang_parse_glue", "stdlib_math"],
         "kani": [],
         "unverified_callers": [
             "texlang-stdlib/src/the.rs (token production from the printed string)",
             "texlang/src/parse/keyword.rs parse_keyword (str slicing: trusted oracle kw_at), <ScaledUnit as Parsable>::parse (for-loop over an array of tuples: trusted oracle unit_parsed), parse_internal_number and parse_character (trusted oracles), OptionalSpace::parse (trusted, described as 'one space token if present')",
             "TexlangState::em_width / ex_height providers",
-            "crates/texlang/src/parse/glue.rs (the glue scanner calls scan_dimen three times; covered by the bounded driver texlang_parse_num only)",
             "`<digits><space><point>` (e.g. `1 .5pt`): TeX ends the number at the space, texcraft reads a fraction - not a constant of TeX's grammar, left open by constant_spec (DESIGN 9)",
         ],
         "assumptions": [],
@@ -161,7 +160,7 @@ PROPS["C02"] = {
 PROPS["C09"] = {
     "level": "proof",
     "only_kinds": ["overflow", "div-by-zero", "bounds", "precondition", "shift", "assertion", "concrete-counterexample", "kani"],
-    "verus": ["common_scaled", "texlang_parse_int", "texlang_parse_dimen", "stdlib_math", "stdext_groupingmap", "stdext_kmp", "texlang_savestack", "texlang_cmdmap", "stdlib_prefix", "stdlib_cond", "texlang_macro"],
+    "verus": ["common_scaled", "texlang_parse_int", "texlang_parse_dimen", "texlang_parse_glue", "stdlib_math", "stdext_groupingmap", "stdext_kmp", "texlang_savestack", "texlang_cmdmap", "stdlib_prefix", "stdlib_cond", "texlang_macro"],
     "kani": [],
     "witness_always": ["texlang_parse_num", "stdlib_totality"],
     "witness_fns": {"texlang_parse_num": ["parse_impl", "parse_constant", "scan_dimen"]},
